@@ -43,8 +43,15 @@ class Graph:
             outs = [int(nxt()) for _ in range(nouts)]
             phony = nxt() == "1"
             p = nxt()
+            c = nxt()
+            r = nxt()
+            rsp = None
+            if r != "n":
+                a, _, b2 = r[1:].partition(":")
+                rsp = (unhexs(a), unhexs(b2))
             self.builds.append({"ins": ins, "explicit": e, "implicit": i, "order_only": o, "outs": outs,
-                                "phony": phony, "pool": None if p == "n" else unhexs(p[1:]).decode()})
+                                "phony": phony, "pool": None if p == "n" else unhexs(p[1:]).decode(),
+                                "cmd": None if c == "n" else unhexs(c[1:]), "rsp": rsp})
         self.files = []
         for _ in range(nf):
             assert nxt() == "F"
@@ -116,6 +123,13 @@ class Inv:
                 mt, _, dig = rest.partition(":")
                 self.files[unhexs(n).decode("utf-8", "replace")] = (int(mt), dig)
         self.db = unhexs(kv.get("db", "-") or "-")
+        self.db0 = None if kv.get("db0", "none") == "none" else unhexs(kv.get("db0") or "-")
+        self.files0 = {}
+        for ent in kv.get("files0", "").split(","):
+            if ent:
+                n, _, rest = ent.partition("=")
+                mt, _, dig = rest.partition(":")
+                self.files0[unhexs(n).decode("utf-8", "replace")] = (int(mt), dig)
         self.printed = []
         for ent in kv.get("printed", "").split(","):
             if ent:
@@ -135,6 +149,9 @@ class Inv:
                 reloaded = True
             elif e == "run_begin":
                 cur["run"] = []
+            elif e.startswith("write_") or e.startswith("deps_"):
+                if cur is not None:
+                    cur.setdefault("aux", []).append((len(cur["run"]) if cur["run"] is not None else -1, e))
             elif cur is not None:
                 (cur["run"] if cur["run"] is not None else cur["want"]).append(e)
         return phases
